@@ -359,3 +359,45 @@ func VH_C06_crash_flag(kind int) {
 	}
 	vreach("end")
 }
+
+// VH_C06_retry: a property write (disabling a rule, setting the parents) whose storage call
+// fails is reported as an error; the client tries again until the operation is
+// acknowledged. What was acknowledged is in storage: the reloaded location shows it.
+func VH_C06_retry(kind, what int) {
+	e := vhC06New(kind)
+	_, err := e.loc.AddRule(e.ctx, "r", vhRule(map[string]interface{}{"a": "?x"}, "act"))
+	vassume(err == nil)
+	// any of the next storage calls fails (or none: 0 is "never")
+	n := vsymInt("failAfter", 0, 2)
+	if n > 0 {
+		e.fs.failAt = e.fs.calls + n
+	}
+	op := func() error {
+		if what == 0 {
+			return e.loc.EnableRule(e.ctx, "r", false)
+		}
+		_, err := e.loc.SetParents(e.ctx, []string{"up"})
+		return err
+	}
+	acked := false
+	for try := 0; try < 3 && !acked; try++ {
+		before := e.fs.failed
+		err := op()
+		if e.fs.failed && !before {
+			vassert(err != nil, "storage-failure-reported")
+		}
+		acked = err == nil
+	}
+	vassert(acked, "operation-succeeds-without-fault")
+	env2 := vhC06Reload(e)
+	if what == 0 {
+		live, lerr := e.loc.RuleEnabled(e.ctx, "r")
+		re, rerr := env2.loc.RuleEnabled(env2.ctx, "r")
+		vassert(lerr == nil && !live, "acknowledged-operation-visible")
+		vassert(rerr == nil && !re, "acknowledged-operation-survives-reload")
+	} else {
+		ps, perr := env2.loc.GetParents(env2.ctx)
+		vassert(perr == nil && len(ps) == 1 && ps[0] == "up", "acknowledged-operation-survives-reload")
+	}
+	vreach("end")
+}
